@@ -481,14 +481,14 @@ class Checker:
         """wire view of the server's answer against the expectation"""
         if case.get('sh') is None:
             self.viol('wire:no-server-hello', 'handshake expected to succeed but no ServerHello on the wire', case)
-            return
+            return False
         sh = parse_server_hello(case['sh'])
         self.stat('cmp_wire_server_hello')
         if sh['version'] != e.version:
             self.viol('version-mismatch', 'ServerHello version %04x, reference %04x' % (sh['version'], e.version), case)
         if sh['suite'] != e.suite:
             self.viol('suite-mismatch', 'ServerHello suite %04x, reference %04x' % (sh['suite'], e.suite), case)
-            return          # key exchange parameters follow from the suite
+            return False    # key exchange parameters follow from the suite
         want = set()
         if o.reneg_offered:
             want.add(0xFF01)
@@ -511,7 +511,7 @@ class Checker:
         if e.ecdhe:
             if ske is None:
                 self.viol('wire:no-server-key-exchange', 'ECDHE suite without ServerKeyExchange', case)
-                return
+                return True
             self.stat('cmp_curve')
             if ske[0] != e.curve:
                 key = 'curve-mismatch' if ske[0] in (o.curves & set(case['S']['curves'])) else 'curve-not-common'
@@ -526,6 +526,7 @@ class Checker:
                     self.viol('sig-hash-mismatch', 'ServerKeyExchange hash %d, reference %d' % (ske[1], e.sig_hash), case)
         elif ske is not None:
             self.viol('wire:unexpected-server-key-exchange', 'ServerKeyExchange sent for suite %04x' % e.suite, case)
+        return True
 
     # ---- a case with two engines
     def check_pair(self, case):
@@ -712,11 +713,11 @@ class Checker:
             return
         if case['alerts']:
             self.viol('alert-mismatch', 'alert after a ServerHello that should stand: %s' % case['alerts'], case)
-        self._check_server_hello(case, e, o, ch)
+        suite_ok = self._check_server_hello(case, e, o, ch)
         self.stat('cmp_version')
         if osv['ver'] != e.version:
             self.viol('version-mismatch', 'server reports version %04x, reference %04x' % (osv['ver'], e.version), case)
-        if e.ecdhe:
+        if e.ecdhe and suite_ok:
             self.stat('cmp_curve')
             if osv['curve'] != e.curve:
                 self.viol('curve-mismatch', 'server reports ECDHE curve %d, reference %d' % (osv['curve'], e.curve), case)
